@@ -246,3 +246,30 @@ def is_autocorrect_value(prog, e, depth=0):
                     if is_autocorrect_value(prog, prog.body(a.a[0][8:]).expr_local(0), depth + 1):
                         return True
     return False
+
+
+def autocorrect_filter(prog):
+    """The predicate user auto-correct values must pass before they are used, as a truth table over
+    (is_ascii(value), value contains NUL): {(ascii, nul): kept?}; (closure key, table) or (None, None)."""
+    from engine.analyses import truth_table
+    lookups = autocorrect_lookup(prog)
+    if len(lookups) != 1:
+        return None, None
+    ret = strip_refs(lookups[0][2])
+    user_branch = ret.a[1][0] if ret.k == "call" and ret.a[0].endswith("::or_else") else ret
+    for x in user_branch.walk():
+        if x.k == "call" and x.a[0].endswith("::filter") and strip_refs(x.a[1][1]).k == "agg" and str(strip_refs(x.a[1][1]).a[0]).startswith("closure:"):
+            ck = strip_refs(x.a[1][1]).a[0][8:]
+            cb = prog.body(ck)
+
+            def is_ascii(e):
+                return e.k == "call" and e.a[0].endswith("is_ascii")
+
+            def has_nul(e):
+                if e.k != "call" or not e.a[0].endswith("::contains") or len(e.a[1]) != 2:
+                    return False
+                c = strip_refs(e.a[1][1])
+                return (is_const(c, "char") and const_val(c) == "\x00") or (is_const(c, "str") and const_val(c) == "\x00")
+            tt = truth_table(cb, [("ascii", is_ascii), ("nul", has_nul)])
+            return ck, tt
+    return None, None
